@@ -26,6 +26,8 @@ import (
 	"verifsim/spec"
 )
 
+var logTailN = 30
+
 // LivenessBudget is the simulated time after which an unfinished script is a hang.
 var LivenessBudget = 6 * time.Hour
 
@@ -33,16 +35,17 @@ type memLog struct {
 	mu    sync.Mutex
 	lines []string
 	n     int
+	cap   int
 }
 
 func (m *memLog) Level() log.Level { return log.Info }
 func (m *memLog) Output(calldepth int, level log.Level, s string) error {
 	m.mu.Lock()
 	m.n++
-	if len(m.lines) >= 400 {
+	if len(m.lines) >= m.cap+100 {
 		m.lines = m.lines[100:]
 	}
-	m.lines = append(m.lines, s)
+	m.lines = append(m.lines, time.Now().Format("15:04:05.000 ")+s)
 	m.mu.Unlock()
 	return nil
 }
@@ -146,7 +149,13 @@ func Main(t *testing.T) {
 	os.MkdirAll(tmp, 0o755)
 	os.Setenv("TMPDIR", tmp)
 	cleanup := func() { os.RemoveAll(tmp) }
-	logger := &memLog{}
+	logger := &memLog{cap: 300}
+	tailN := 30
+	if v := os.Getenv("VERIF_LOGTAIL"); v != "" {
+		fmt.Sscanf(v, "%d", &tailN)
+		logger.cap = tailN
+	}
+	logTailN = tailN
 	log.SetOutputter(logger)
 	var progress int64
 	w := &World{c: &c, logger: logger, progress: &progress,
@@ -255,7 +264,7 @@ func (w *World) outcome() *Outcome {
 			o.Extra = map[string]any{"more_violations": len(viol) - 1}
 		}
 	}
-	o.LogTail = w.logger.tail(30)
+	o.LogTail = w.logger.tail(logTailN)
 	return o
 }
 
@@ -294,6 +303,24 @@ func (w *World) run() *Outcome {
 	}
 	interp.H = interp.Hooks{Point: w.userPoint, Record: w.record, Partition: w.userPartition, WantKeys: c.Oracle.Placement}
 	exec.VerifSetYield(w.yield)
+	if c.Oracle.SingleRunner {
+		inflight := map[string]bool{}
+		var imu sync.Mutex
+		w.onYield = func(point, key string) {
+			imu.Lock()
+			defer imu.Unlock()
+			switch point {
+			case "bm.run", "local.run":
+				if inflight[key] {
+					w.violate("task-run-concurrently", "task %s was handed to the executor while a previous hand-out had not finished", key)
+				}
+				inflight[key] = true
+				w.probe("executor_runs")
+			case "bm.done", "local.done":
+				delete(inflight, key)
+			}
+		}
+	}
 	w.sess = exec.Start(opts...)
 
 	done := make(chan struct{})
@@ -616,8 +643,13 @@ func (w *World) yield(point, key string) {
 	w.uocc[name]++
 	occ := w.uocc[name]
 	w.mu.Unlock()
-	if d := simnet.DelayFor(w.c.Config.DelayProfile, w.c.Config.DelaySeed, name, occ); d > 0 {
-		time.Sleep(d)
+	// Exit points are observation points only: by then the task's outcome is
+	// already published, and delaying here would stretch the observed
+	// in-flight interval beyond the real one.
+	if !strings.HasSuffix(point, ".done") {
+		if d := simnet.DelayFor(w.c.Config.DelayProfile, w.c.Config.DelaySeed, name, occ); d > 0 {
+			time.Sleep(d)
+		}
 	}
 	w.mu.Lock()
 	if len(w.uevents) < 200000 {
